@@ -138,7 +138,7 @@ pub fn run_history(case: &HCase, focus: Focus, obs: &mut Obs) -> Verdict {
         if let Err(e) = engine::exec(&mut db, &st) {
             // a schema the engine refuses is outside the domain (e.g. FK to a non-key column)
             obs.class("schema_rejected");
-            let _ = e;
+            obs.class(&format!("schema_rejected:{}", vcore::runner::truncate(&e.text(), 60)));
             return Verdict::Pass;
         }
     }
@@ -263,7 +263,10 @@ pub fn run_history(case: &HCase, focus: Focus, obs: &mut Obs) -> Verdict {
         if specs.iter().any(|s| !s.fks.is_empty()) {
             let es = read_engine_state(&db, specs);
             if let Some(d) = orphans(specs, &es) {
-                report!(Focus::C12, "c12.orphan".to_string(), format!("after `{}`: {}", sql, d));
+                let sig = if e.is_err() { format!("c12.orphan.after_failed_{}", kind) } else { format!("c12.orphan.after_{}", kind) };
+                report!(Focus::C12, sig, format!("after `{}` ({}): {}", sql, if e.is_err() { "which returned an error" } else { "which succeeded" }, d));
+                // the history continues from the engine's actual state
+                state = es;
             }
         }
         if focus == Focus::C15 {
